@@ -32,6 +32,12 @@ C={
 "C05":("model_checking","bounded-exhaustive exploration: every document over a 14-event alphabet x selector sets x registration subsets (both orders) x {single write, cut inside every token} on the real rewriter, handler log compared with a reference scope model",
  "For every enumerated document, selector set and set of registrations (element/text/comments/on_end_tag per selector, document-level text/comments/doctype/end; subsets of size<=2 in both orders, the full set in both orders, and content-removing variants) the normalised handler log equals the scope model: exactly once, only in scope, document order, registration order with selector-scoped before document-level, end handler last, end-tag handlers at the closing end tag (own or ancestor's), none for void/unclosed elements.",
  "Order among several end-tag handlers on the same end tag is compared as a multiset. Reuses R-tree/R-match.","DESIGN.md §4 C05"),
+"C14":("model_checking","bounded-exhaustive exploration: generated documents whose byte ranges the generator knows x configs x encodings x all 1-/2-cut and byte-wise schedules on the real rewriter; plus structural and schedule-independence checks of every location on tag soup",
+ "For every generated document (15-event alphabet, len<=4 quick/5 thorough) under observers and under handlers that rewrite earlier content, in UTF-8 and Shift_JIS, under every listed schedule, every reported range equals the generator's (tags, attribute names/values per R-attr, comments, doctype; text chunks contiguous and covering exactly their node); on tag soup all ranges are in bounds, ordered, non-overlapping and identical under every schedule.",
+ "Attribute ranges come from R-attr (WHATWG attribute states transcribed from the specification); empty values only need an empty, contained, schedule-independent range.","DESIGN.md §4 C14"),
+"C16":("model_checking","bounded-exhaustive exploration of start-tag syntax: every piece sequence up to a length x tag names x HTML/SVG/MathML contexts x 3 encodings x every cut inside the tag on the real rewriter, getters compared with R-attr and html5ever, then every single edit + re-read",
+ "For every start tag built from <=5 (quick) / <=6 (thorough) syntax pieces, 4 tag names, 4 contexts, UTF-8/windows-1252/Shift_JIS and every cut position inside the tag: tag_name, preserve-case name, attributes() (order, names, raw values), get/has_attribute (case-insensitive, first duplicate), is_self_closing, can_have_content and namespace_uri equal the reference; after each of 9 set_attribute/remove_attribute/set_tag_name edits a re-read reflects the edit.",
+ "R-attr is cross-checked against html5ever on every UTF-8/HTML tag; br (a breakout tag) is not placed inside svg/math.","DESIGN.md §4 C16"),
 "C01":("model_checking","bounded-exhaustive exploration of the real rewriter: all strings over two adversarial alphabets x observer configs x all 1-/2-cut, byte-wise and empty-write schedules; oracle = byte identity",
  "No execution of the real rewriter, over every string of the fragment alphabet (len<=3 quick/<=4 thorough) and byte alphabet (len<=4/<=6), every observer handler set of a 16-entry menu, strict on/off, 4 encodings and every listed schedule, emits anything but the input (or a prefix on a strict-mode ambiguity error).",
  "Coverage statement inside the stated alphabets/bounds only; the round-trip exception is decided by encoding_rs.","DESIGN.md §4 C01"),
